@@ -60,6 +60,20 @@ def _drop_seg(scn, k, j, g):
 def candidates(scn):
     """Yield smaller scenarios, most aggressive first."""
     if "script" in scn:
+        # a long idle stretch at the start: cut it in half (one empty tick at a time would take for ever)
+        lead = 0
+        while lead < len(scn["script"]) and not scn["script"][lead]:
+            lead += 1
+        cut = lead // 2
+        if cut >= 16:
+            s = copy.deepcopy(scn)
+            del s["script"][:cut]
+            s["cfg"]["ticks"] = max(1, s["cfg"]["ticks"] - cut)
+            for p in s["pipes"]:
+                p["at"] = max(0, p.get("at", 0) - cut)
+            if s.get("decoy_at") is not None:
+                s["decoy_at"] = max(0, s["decoy_at"] - cut)
+            yield s
         n = len(scn["script"])
         # drop whole ticks' commands (keep timing), then single commands
         for t in range(n):
@@ -120,12 +134,15 @@ def candidates(scn):
             yield s
 
 
-def shrink(scn, rule, execute, budget=300, extra_candidates=None):
-    """execute(scn) -> outcome dict with outcome['violation'] (or None)."""
+def shrink(scn, rule, execute, budget=300, extra_candidates=None, seconds=150):
+    """execute(scn) -> outcome dict with outcome['violation'] (or None).  Bounded by a number of re-executions and by
+    wall-clock time (a scenario of 100 000 ticks takes half a minute per attempt)."""
+    import time
+    t_end = time.time() + seconds
     best = scn
     used = 0
     progress = True
-    while progress and used < budget:
+    while progress and used < budget and time.time() < t_end:
         progress = False
         gens = [candidates(best)]
         if extra_candidates is not None:
@@ -134,7 +151,7 @@ def shrink(scn, rule, execute, budget=300, extra_candidates=None):
             for cand in g:
                 if cand is None:
                     continue
-                if used >= budget:
+                if used >= budget or time.time() >= t_end:
                     break
                 used += 1
                 try:
